@@ -94,6 +94,13 @@ func (m *model) putDigest(d string) expect {
 	return mustOK
 }
 
+// putChild: a push by digest with WithManifestChild — stored, but (layout) not listed in index.json.
+func (m *model) putChild(d string) expect {
+	m.file[d] = present
+	m.settle()
+	return mustOK
+}
+
 func (m *model) tagDel(t string) expect {
 	if _, ok := m.tags[t]; !ok {
 		return mustFail
